@@ -4,7 +4,7 @@
 EXTENDS JudgeTs
 VARIABLES c, done
 
-PropNames == {"a", "b", "cb", "q-k", "z"}
+PropNames == {"a", "b", "cb", "q-k", "z", "u"}
 IsFunctionProp(k) == k = "cb"
 
 EntryFor(ob, k) == LET idx == {i \in 1..Len(ob.abs.entries) : ob.abs.entries[i].key = k} IN
@@ -16,7 +16,7 @@ FromEntry(en, k) ==
     [] en.form \in {"lit", "expr", "shorthand", "getter"} ->
          IF IsFunctionProp(k) THEN [has |-> TRUE, value |-> Eval(en.e), ret |-> IF "ret" \in DOMAIN Eval(en.e) THEN Eval(en.e).ret ELSE AnyV]
          ELSE [has |-> TRUE, value |-> Eval(en.e), ret |-> AnyV]
-    [] en.form \in {"fn", "method"} -> [has |-> TRUE, value |-> [t |-> "fn", id |-> "anon"], ret |-> Eval(en.e)]
+    [] en.form \in {"fn", "method"} -> [has |-> TRUE, value |-> [t |-> "fn", id |-> "anon"], ret |-> Eval(en.e)]   \* the written function itself
     [] en.form = "async_method" -> [has |-> TRUE, value |-> [t |-> "fn", id |-> "anon"], ret |-> AnyV]
 
 FromDynValue(v, k) ==         \* Vue's rule for a default found at runtime (mergeDefaults)
